@@ -339,7 +339,7 @@ class Gen:
         r = self.r
         obs = [("index_valid",), ("iter",)]
         k = r.choice(["ooo_batch", "carriers", "bad_batch", "stale_handle", "torn_update", "handle_times", "linebreaks", "zones",
-                      "remove_first", "ooo_then_remove", "nested_not", "reset_then_time", "nan_fields", "epoch", "sparse_write", "sparse_write", "future_untimed", "range_ends", "noop_compose", "substring_names", "same_size", "one_us_late", "mixed_quoting", "getter_memo", "handle_sorted", "odd_strings", "shared_maps", "hash_twins", "same_count", "redate", "fold_twins", "big_ties", "handle_unset", "same_row_twice"])
+                      "remove_first", "ooo_then_remove", "nested_not", "reset_then_time", "nan_fields", "epoch", "sparse_write", "sparse_write", "future_untimed", "range_ends", "noop_compose", "substring_names", "same_size", "one_us_late", "mixed_quoting", "far_sorted", "getter_memo", "handle_sorted", "odd_strings", "shared_maps", "hash_twins", "same_count", "redate", "fold_twins", "big_ties", "handle_unset", "same_row_twice"])
         pref = self.profile.get("scenario_pref")
         if pref and r.random() < 0.5:
             k = r.choice(pref)
@@ -425,6 +425,18 @@ class Gen:
             ops += [r.choice([("remove", rq, None), ("remove", ("not", ("not", rq)), r.choice(["m1", "m2"])),
                               ("handle", r.choice(["m1", "m2"]), ("remove", ("not", ("S", "fields", [("k", "pos")], ("cmp", ">=", ("n", r.choice([2, 3, 4])))))))])] + obs
             ops += gets("m1") + gets("m2")
+        elif k == "far_sorted":
+            # instants after 2255 that differ by one microsecond but are the same double in seconds: datetimes order them, float stamps
+            # cannot.  Stored later-first, then ONLY reads that sort datetimes (all(sorted=True) of the database and of a handle) - no time
+            # query and no get_timestamps follows (those go through the float stamps of the index: known finding F38)
+            base = 10_413_792_000 * SEC + r.randrange(0, 10 ** 6) * SEC         # 2300-01-01 + up to 11 days, a whole second
+            d = next(d for d in range(1, 64) if (base + d) / 10 ** 6 == (base + d + 1) / 10 ** 6)
+            a, b = self.point(base + d + 1), self.point(base + d)
+            a["meas"] = b["meas"] = "m1"
+            others = [self.point() for _ in range(r.choice([1, 2]))]
+            ops += [("insert", [x], None) for x in others[:1] + [a, b] + others[1:]] + obs + [("count", ("noop", "tags"), None), ("index_valid",)]
+            ops += [("handle", "m1", ("all", True)), ("all", True), ("handle", "m1", ("all", False)), ("handle", "m2", ("all", True))]
+            self.no_tail = True
         elif k == "handle_sorted":
             # storage order differs from time order, the index is rebuilt by a read, then sorted reads through a handle
             pts = self.points_batch(r.choice([4, 5, 6]), in_order=True)
@@ -857,8 +869,9 @@ class Gen:
         ops = []
         if r.random() < self.profile.get("p_scenario", 0.35):
             self.ids = 0
+            self.no_tail = False
             ops = self.scenario(csv)
-            for _ in range(r.choice([0, 2, 4])):
+            for _ in range(0 if self.no_tail else r.choice([0, 2, 4])):
                 ops.append(self.read_op())
             ops += self.file_obs() + [("all", False), ("len",), ("index_valid",)]
             return ops
